@@ -1,6 +1,6 @@
 (* C02 — property theorems only.  Each is closed by `exact` of a lemma of C02_Proofs.v / C02_ProofsScan.v. *)
 From Coq Require Import List NArith Bool String.
-From Dae Require Import C01_Spec C01_Model C02_Spec C02_Model C02_Proofs C02_ProofsScan.
+From Dae Require Import C01_Spec C01_Model C02_Spec C02_Model C02_Proofs C02_ProofsScan C02_ProofsOrder.
 From Dae.gen Require Import C01_Consts C02_Consts.
 Import ListNotations.
 Open Scope N_scope.
@@ -52,6 +52,30 @@ Theorem C02_pname_combinations :
   probe_ok (pn_packet curl16) false = false /\ probe_ok (pn_packet z) true = true /\ probe_ok (pn_packet z) false = true.
 Proof. exact pname_combinations. Qed.
 Print Assumptions C02_pname_combinations.
+
+(* ORDER INDEPENDENCE.  The ControlPlane takes a KernspaceSnapshot of the builder and then, in any order and any number of
+   times, runs BuildUserspace on the builder (which empties it) and buildRoutingKernspace on the snapshot (first start:
+   install then BuildUserspace; staged reload: BuildUserspace then CommitPreparedDatapath; RebuildReloadDatapath: install
+   again).  With a snapshot that is a value, every such call is given exactly the lowered program's match-sets and
+   prefix lists, and every requested call happens - so the tries the kernel gets are those C02_kscan_scan speaks about.
+   (Tie: the harness takes the real snapshot and reads it at the time of each call, in these orders.) *)
+Theorem C02_install_order_independent :
+  forall (ms : list mset) (tries : list (list prefix128)) (ring : N) (km : kmaps) (steps : list bstep),
+    ~ In BSnapshot steps ->
+    let w := brun false (BSnapshot :: steps) (bworld0 ms tries ring km) in
+    (forall e, In e (bw_log w) -> il_rules e = ms /\ il_tries e = tries) /\
+    List.length (bw_log w) = count_occ bstep_eq_dec steps BInstall.
+Proof. exact install_order_independent_proof. Qed.
+Print Assumptions C02_install_order_independent.
+
+(* A snapshot that shares the builder's slice of prefix lists, combined with a BuildUserspace that releases each list
+   once its trie exists, breaks this: in the staged-reload order the kernel is given empty tries. *)
+Theorem C02_install_order_aliasing_refuted :
+  exists (ms : list mset) (tries : list (list prefix128)) (steps : list bstep) (e : ilog),
+    ~ In BSnapshot steps /\
+    In e (bw_log (brun true (BSnapshot :: steps) (bworld0 ms tries 0 empty_kmaps))) /\ il_tries e <> tries.
+Proof. exact install_order_aliasing_refuted_proof. Qed.
+Print Assumptions C02_install_order_aliasing_refuted.
 
 (* TOTALITY of the installation for what the builder emits within the limits *)
 Theorem C02_install_total :
